@@ -13,6 +13,9 @@ pub mod runtime;
 
 pub mod plugin;
 
+#[cfg(feature = "verif-hooks")]
+pub mod verif;
+
 use std::path::PathBuf;
 
 use crate::plugin::{MachineFunction, MacroFunction};
